@@ -17,22 +17,30 @@ ob("da_size", "C12", entry="h_da_size", enforce="DAsize_array", **DA)
 ob("da_create", "C12", entry="h_da_create", enforce="DAcreate_array", **DA)
 
 # ----------------------------------------------------------------------------- hfiledd.c, in-memory directory
-HD = dict(unit="hfiledd_dir_u.c", file="hdf/src/hfiledd.c", objbits=10, timeout=600,
+HD = dict(unit="hfiledd_dir_u.c", file="hdf/src/hfiledd.c", objbits=10, timeout=900, flags=["--sat-solver", "cadical"],
+          backend="cbmc SAT (cadical)",
           trusted=["HEclear/HEpush (error stack)", "HAatom_object (file id -> file record or NULL)",
                    "tbbtdfind/tbbtdins (tag tree = finite map with one modelled key, A-TBBT)"])
 ob("htagnewref", ["C12", "C20"], entry="h_tagnewref", enforce="Htagnewref", defines=["H4V_OB_TAGNEWREF"],
-   loops=True, nloops=1, loopcls="A", cex_unwind=66, **HD)
+   loops=True, nloops=1, loopcls="A", cex_unwind=66, tier="thorough", **dict(HD, timeout=1800))
 ob("hticount_dd_even", "C12", entry="h_count_dd", enforce="HTIcount_dd",
    defines=["H4V_OB_COUNT", "H4V_MAXNDDS=4", "H4V_NDDS_PARITY=0"], mode="bounded",
    bound="<= 2 DD blocks, ndds in {2,4}", unwind=7, cex_unwind=7, **HD)
 ob("hticount_dd_odd", "C12", entry="h_count_dd", enforce="HTIcount_dd",
    defines=["H4V_OB_COUNT", "H4V_MAXNDDS=5", "H4V_NDDS_PARITY=1"], mode="bounded",
    bound="<= 2 DD blocks, ndds in {1,3,5}", unwind=7, cex_unwind=7, **HD)
-ob("htifind_dd_fwd", "C12", entry="h_find_dd", enforce="HTIfind_dd", defines=["H4V_OB_FIND", "H4V_DIRECTION=1"],
-   mode="bounded", bound="<= 2 DD blocks, ndds <= 3, DF_FORWARD", unwind=6, cex_unwind=6, **HD)
-ob("htifind_dd_bwd", "C12", entry="h_find_dd", enforce="HTIfind_dd", defines=["H4V_OB_FIND", "H4V_DIRECTION=2"],
-   mode="bounded", bound="<= 2 DD blocks, ndds <= 3, DF_BACKWARD", unwind=6, cex_unwind=6, **HD)
+for _d, _dn in ((1, "fwd"), (2, "bwd")):
+    ob(f"htifind_dd_{_dn}_wild", "C12", entry="h_find_dd", enforce="HTIfind_dd",
+       defines=["H4V_OB_FIND", f"H4V_DIRECTION={_d}", "H4V_EXACT=0"], mode="bounded",
+       bound=f"<= 2 DD blocks, ndds <= 3, direction {_dn}, wildcard shapes (tag, ref or both wild)", unwind=6, cex_unwind=6, **HD)
+ob("htifind_dd_exact", "C12", entry="h_find_dd", enforce="HTIfind_dd", defines=["H4V_OB_FIND", "H4V_EXACT=1"], mode="bounded",
+   bound="<= 2 DD blocks, ndds <= 3, both directions, exact (tag, ref); ref table of 64 or 256 slots", unwind=6, cex_unwind=6, **HD)
 ob("htifind_dd_abs", "C12", entry="h_find_dd_abs", enforce="HTIfind_dd", defines=["H4V_OB_FIND_ABS"],
    mode="bounded", bound="<= 2 DD blocks, ndds <= 3 (abstraction used by hnewref)", unwind=6, cex_unwind=6, **HD)
 ob("hnewref", ["C12", "C20"], entry="h_newref", enforce="Hnewref", replace=["HTIfind_dd"], defines=["H4V_OB_NEWREF"],
    loops=True, nloops=1, loopcls="P", cex_unwind=4, **HD)
+ob("htiregister_existing", "C12", entry="h_register", enforce="HTIregister_tag_ref", defines=["H4V_OB_REGISTER"],
+   mode="bounded", bound="tag already in the tree, ref inside the current ref table (no table growth)", unwind=3, cex_unwind=66,
+   tier="thorough", **dict(HD, timeout=1800))
+ob("htiunregister", "C12", entry="h_register", enforce="HTIunregister_tag_ref", defines=["H4V_OB_UNREGISTER"],
+   mode="bounded", bound="ref inside the current ref table", unwind=3, cex_unwind=66, tier="thorough", **dict(HD, timeout=1800))
